@@ -219,4 +219,65 @@ def rt_replace_str (s pat to : List Char) : List Char := replaceGo pat to 0 s
 /-- `str::replace(char, &str)` -/
 def rt_replace_char (s : List Char) (c : Char) (to : List Char) : List Char := replaceChars [c] to s
 
+/-! byte buffers (`Vec<u8>` / `&[u8]` = `List UInt8`), `while` loops, in-place updates and setter objects: targets of the translation of
+  `src/helper/crypt.rs` -/
+
+/-- `&l[a..b]` / `l[a..b].to_vec()` of a slice; out of range = panic -/
+def rt_bslice {α} (l : List α) (a b : Nat) : Option (List α) :=
+  if a ≤ b ∧ b ≤ l.length then some ((l.drop a).take (b - a)) else none
+
+/-- `l[i] = v` / `std::mem::replace(&mut l[i], v)`; out of bounds = panic -/
+def rt_list_set {α} (l : List α) (i : Nat) (v : α) : Option (List α) :=
+  if i < l.length then some (l.set i v) else none
+
+/-- unsigned `a / b`, `a % b` with a divisor that is not a literal: by zero = panic -/
+def rt_udiv (a b : Nat) : Option Nat := if b = 0 then none else some (a / b)
+def rt_umod (a b : Nat) : Option Nat := if b = 0 then none else some (a % b)
+
+/-- `u16::to_le_bytes` -/
+def rt_u16_le_bytes (u : Nat) : List UInt8 := [UInt8.ofNat (u % 256), UInt8.ofNat (u / 256 % 256)]
+
+/-- `u32::to_le_bytes` -/
+def rt_u32_le_bytes (n : Nat) : List UInt8 :=
+  [UInt8.ofNat (n % 256), UInt8.ofNat (n / 256 % 256), UInt8.ofNat (n / 65536 % 256), UInt8.ofNat (n / 16777216 % 256)]
+
+/-- byteorder `LittleEndian::write_u32(buf, v)`: the first four bytes are overwritten; a shorter buffer = panic -/
+def rt_write_u32_le (buf : List UInt8) (v : Nat) : Option (List UInt8) :=
+  if 4 ≤ buf.length then some (rt_u32_le_bytes v ++ buf.drop 4) else none
+
+/-- byteorder `LittleEndian::read_u32(buf)`; a shorter buffer = panic -/
+def rt_read_u32_le : List UInt8 → Option Nat
+  | a :: b :: c :: d :: _ => some (a.toNat + 256 * b.toNat + 65536 * c.toNat + 16777216 * d.toNat)
+  | _ => none
+
+/-- `str::encode_utf16`: the UTF-16 code units of the text -/
+def rt_encode_utf16 (s : List Char) : List Nat :=
+  s.flatMap fun c => if c.toNat < 65536 then [c.toNat] else [55296 + (c.toNat - 65536) / 1024, 56320 + (c.toNat - 65536) % 1024]
+
+/-- `str::len`: the length of the UTF-8 encoding -/
+def rt_utf8_len (s : List Char) : Nat :=
+  (s.map fun c => if c.toNat < 128 then 1 else if c.toNat < 2048 then 2 else if c.toNat < 65536 then 3 else 4).sum
+
+/-- `while cond { body }` over the state `σ`, bounded by fuel (an upper bound on the number of iterations given in the target description);
+    `none` = the body panics or the fuel runs out — a theorem that equates a translated function with a model that returns `some` shows the
+    fuel suffices there -/
+def rt_whileM {σ} (cond : σ → Bool) (body : σ → Option σ) : Nat → σ → Option σ
+  | 0, _ => none
+  | fuel + 1, s => if cond s then (body s).bind (rt_whileM cond body fuel) else some s
+
+/-- an object whose setters the fragment calls (`SheetProtection`, `WorkbookProtection`): its `StringValue` and `UInt32Value` fields by
+    field name (`none` = no value).  Which field a setter writes is read from the struct's own source file by the translator. -/
+structure rt_Obj where
+  str : String → Option (List Char)
+  u32 : String → Option Nat
+
+/-- `self.<f>.set_value(v)` on a `StringValue` field -/
+def rt_Obj.setStr (o : rt_Obj) (f : String) (v : List Char) : rt_Obj := { o with str := fun g => if g = f then some v else o.str g }
+/-- `self.<f>.set_value(v)` on a `UInt32Value` field -/
+def rt_Obj.setU32 (o : rt_Obj) (f : String) (v : Nat) : rt_Obj := { o with u32 := fun g => if g = f then some v else o.u32 g }
+/-- `self.<f>.remove_value()` on a `StringValue` field -/
+def rt_Obj.removeStr (o : rt_Obj) (f : String) : rt_Obj := { o with str := fun g => if g = f then none else o.str g }
+/-- `self.<f>.remove_value()` on a `UInt32Value` field -/
+def rt_Obj.removeU32 (o : rt_Obj) (f : String) : rt_Obj := { o with u32 := fun g => if g = f then none else o.u32 g }
+
 end Umya.Gen
